@@ -232,7 +232,8 @@ def run_property(P, pid, tier, seed, replay):
         "wall_s": round(wall, 2),
         "violations": len(violations) if violations else (1 if breaks else 0),
     }
-    vlib.write_json(os.path.join(vlib.VERIF, "evidence", "%s.json" % pid), evidence)
+    ev_dir = os.environ.get("VERIF_EVIDENCE_DIR") or os.path.join(vlib.VERIF, "evidence")
+    vlib.write_json(os.path.join(ev_dir, "%s.json" % pid), evidence)
 
     for kl in known_lines:
         print(kl)
